@@ -25,14 +25,17 @@ Record mstate := mk_mstate { ms_regs : list rstate; ms_mems : list memory }.
 Definition bit_of (o : option bv) : option tbit :=
   match o with Some x => Some (bv_get x 0) | None => None end.
 
-Definition pin_of (v : vals) (ins : list (option (nat * nat))) : port_in :=
+(* wrData is brought to the word width (the two agree in every circuit gatery builds: the frontend
+   and Node_MemPort::connectWrData enforce it; the resize makes the model total on malformed netlists) *)
+Definition pin_of (cfg : mem_cfg) (v : vals) (ins : list (option (nat * nat))) : port_in :=
   MkPin (lookup v (nth 2 ins None)) (bit_of (lookup v (nth 0 ins None)))
-        (bit_of (lookup v (nth 1 ins None))) (lookup v (nth 3 ins None)).
+        (bit_of (lookup v (nth 1 ins None)))
+        (option_map (bv_resize (c_width cfg)) (lookup v (nth 3 ins None))).
 
 (* the latch a write port would store under valuation v *)
 Definition latch_of (nl : mnetlist) (v : vals) (pos : nat) : latch :=
   match nth_error nl pos with
-  | Some (mk_mnode (MMemPort _ cfg _ _ _) ins) => mem_latch_write cfg (pin_of v ins)
+  | Some (mk_mnode (MMemPort _ cfg _ _ _) ins) => mem_latch_write cfg (pin_of cfg v ins)
   | _ => MkLatch [] [] false
   end.
 
@@ -47,7 +50,7 @@ Definition mnode_outputs (nl : mnetlist) (st : mstate) (ins : list bv) (v : vals
   | MBase _ => node_outputs (ms_regs st) ins v (as_node n)
   | MMemPort mem cfg isRead _ prev =>
       [ if isRead
-        then mem_read cfg (nth mem (ms_mems st) []) (map (latch_of nl v) prev) (pin_of v (mn_ins n))
+        then mem_read cfg (nth mem (ms_mems st) []) (map (latch_of nl v) prev) (pin_of cfg v (mn_ins n))
         else all_X (c_width cfg); []; [] ]
   | MMemory => [[]; []]
   end.
